@@ -33,6 +33,8 @@ type World struct {
 	ToolErrs  []string
 	tagTypeMap map[int]types.Type
 	tagsAtLoad int
+	lits map[string][]string
+	litByText map[string]string
 	zeroGlobals map[*ssa.Global]bool
 	eltyIDs map[string]int
 	implCache map[string][]int
@@ -639,4 +641,23 @@ func (w *World) findZeroGlobals() {
 	for g := range cand {
 		w.zeroGlobals[g] = true
 	}
+}
+
+// ghostFieldsOf: ghost fields declared for the named struct type, by id.
+func (w *World) ghostFieldsOf(t types.Type) []*GhostField {
+	tk := typeKey(t)
+	if tk == "" {
+		return nil
+	}
+	if _, isPtr := t.(*types.Pointer); isPtr {
+		return nil
+	}
+	var out []*GhostField
+	for k, gf := range w.Specs.GhostFields {
+		if k == tk+"."+gf.Name {
+			out = append(out, gf)
+		}
+	}
+	sort.Slice(out, func(i, j int) bool { return out[i].ID < out[j].ID })
+	return out
 }
